@@ -458,9 +458,10 @@ func (p *G1Jac) JointScalarMultiplicationBase(a *G1Affine, s1, s2 *big.Int) *G1J
 	s[0] = s[0].SetBigInt(&k1).Bits()
 	s[1] = s[1].SetBigInt(&k2).Bits()
 
-	maxBit := k1.BitLen()
-	if k2.BitLen() > maxBit {
-		maxBit = k2.BitLen()
+	// SetBigInt reduced the scalars modulo the group order: the loop is bounded by the reduced values
+	maxBit := s[0].BitLen()
+	if s[1].BitLen() > maxBit {
+		maxBit = s[1].BitLen()
 	}
 	hiWordIndex := (maxBit - 1) / 64
 
@@ -527,9 +528,10 @@ func (p *G1Jac) JointScalarMultiplication(p1, p2 *G1Jac, s1, s2 *big.Int) *G1Jac
 	s[0] = s[0].SetBigInt(&k1).Bits()
 	s[1] = s[1].SetBigInt(&k2).Bits()
 
-	maxBit := k1.BitLen()
-	if k2.BitLen() > maxBit {
-		maxBit = k2.BitLen()
+	// SetBigInt reduced the scalars modulo the group order: the loop is bounded by the reduced values
+	maxBit := s[0].BitLen()
+	if s[1].BitLen() > maxBit {
+		maxBit = s[1].BitLen()
 	}
 	hiWordIndex := (maxBit - 1) / 64
 
